@@ -190,6 +190,23 @@ CLAIMS["C08"] = dict(
          "compiled model in the thorough tier (a test, not a kernel proof).",
 )
 
+CLAIMS["C14"] = dict(
+    technique="Lean 4 invariant of the code-registry model over every history (induction) + per-step resolution correspondence on generated modules + identity oracle",
+    text="Machine-checked proof over the registry model M7 (paths, current code per path, back-references, installed "
+         "code per function; install = optional re-registration of the original code + update_cache_entry + code swap), "
+         "for every history of installs and lookups over any number of functions, that each function's path points at the "
+         "code installed on it and no code is registered under another function's path, hence the reference of every "
+         "function resolves to that very function before, during and after any number of probes; a witness shows that the "
+         "pollution caused by executing the rewritten definition breaks it. On generated modules (module-level functions, "
+         "methods of nested classes sharing their names, a nested function, a decorated function) histories of "
+         "activate by name / by reference, deactivate in any order, call, resolve are run; after every step the reference "
+         "of EVERY function is resolved on the implementation and in the model, and probes by reference must deliver the "
+         "events of their own function.",
+    design_ref="DESIGN.md section 5, C14",
+    note="codefind is external (modelled, validated by correspondence). Known finding F25: the function object returned "
+         "by the non in-place `tooled` decorator is not what its reference resolves to. Holds only after fix commit 9c6aa53.",
+)
+
 PENDING_REASON = ("not claimed yet in this build: the Lean model and correspondence check for this property are "
                   "still under construction (see DESIGN.md section 11); the technique applies and the property "
                   "will move to `checks` when its check exists")
